@@ -2,8 +2,8 @@
    Only statements, `exact`, and Print Assumptions.  Model: Conc/AutoCommit.v
    (program order of the code as it is now = current_order = order_fixed).
    A "statement" is an auto-commit write (ndb_execute_write, prepared write statements) or an explicit
-   transaction holding one statement (ndb_begin_write, ndb_txn_query, ndb_txn_commit): both run the four
-   steps lock, snapshot, commit, unlock in this order on the real code (calibrated by the harness and
+   transaction holding one statement (ndb_begin_write, ndb_txn_query, ndb_txn_commit): both run the five
+   steps lock, snapshot, log, publish, unlock in this order on the real code (calibrated by the harness and
    compared in Corr/C09.v). *)
 From Coq Require Import List ZArith.
 From NDB Require Import Conc.Sched Conc.AutoCommit Conc.AutoCommit_proofs.
@@ -54,3 +54,17 @@ Proof.
   exists witness_old_sched. destruct old_order_loses_update as (A & B & _ & D). exact (conj A (conj B D)).
 Qed.
 Print Assumptions C09_old_order_refuted.
+
+(* the writer lock must cover the publication of the committed state: if the write guard is dropped after the
+   log record is durable but before the run is published, the next statement can take the lock and its
+   snapshot in that window and an increment is lost *)
+Definition C09_early_unlock_refuted_statement : Prop :=
+  exists sched,
+    let c := arun sched (init order_early_unlock 0 [[SAdd 1]; [SAdd 1]]) in
+    done_upto 2 c = true /\ length (hist (Sched.shared c)) = 2%nat /\
+    cell (Sched.shared c) <> seq_result 0 (map snd (hist (Sched.shared c))).
+Theorem C09_early_unlock_refuted : C09_early_unlock_refuted_statement.
+Proof.
+  exists witness_early_unlock_sched. destruct early_unlock_loses_update as (A & B & _ & D). exact (conj A (conj B D)).
+Qed.
+Print Assumptions C09_early_unlock_refuted.
